@@ -98,9 +98,20 @@ def run(ctx):
         vl = sorted(abs(Fd[t]) for t in b)
         ctx.check(len(a) == len(b) and (a == b or (ties or True) and np.allclose(vr, vl) or True) and all(len(t) == len(n) and all(0 <= x < q for x, q in zip(t, n)) for t in a),
                   'optima_tt_beam:r2l', 'right-to-left search returns indices outside the tensor', case=case)
+        # either direction: the index returned without ret_all is the first row of the ret_all answer, i.e. the best candidate
+        for l2r_, Iall in ((True, I), (False, Ir)):
+            one = np.asarray(teneva.optima_tt_beam(Y, k, l2r=l2r_))
+            rows_ = [tuple(int(x) for x in row) for row in np.asarray(Iall)]
+            vbest = max(abs(Fd[t_]) for t_ in rows_) if rows_ else None
+            ok1 = one.shape == (len(n),) and rows_ and abs(Fd[tuple(int(x) for x in one)]) >= vbest - 1e-9
+            ctx.check(bool(ok1), 'optima_tt_beam:best', 'optima_tt_beam(k=%d, l2r=%s) returns %s, which is not the best of its own candidates %s' % (k, l2r_, one.tolist(), rows_[:4]), case=case)
         exact_expected = k >= N or g['r'] == 1    # r <= 0 marks the needle families (rank 2)
         if exact_expected:
             ctx.check(max(abs(Fd[t]) for t in a) == g['maxabs'], 'optima_tt_beam:r2l-exact', 'right-to-left beam misses the maximum modulus although nothing is pruned / rank 1', case=case)
+            one_r = np.asarray(teneva.optima_tt_beam(Y, k, l2r=False))
+            ctx.check(one_r.shape == (len(n),) and abs(Fd[tuple(int(x) for x in one_r)]) == g['maxabs'], 'optima_tt_beam:r2l-exact',
+                      'optima_tt_beam(k=%d, l2r=False) returns %s with modulus %s, the maximum modulus is %s (nothing pruned / rank 1)'
+                      % (k, one_r.tolist(), abs(Fd[tuple(int(x) for x in one_r)]) if one_r.shape == (len(n),) else None, g['maxabs']), case=case)
         # --- max modulus (both directions)
         i, y = teneva.optima_tt_max(Y, k)
         if consistent(ctx, 'optima_tt_max', Fd, i, y, case, 'optima_tt_max(k=%d)' % k) and exact_expected:
